@@ -496,8 +496,11 @@ package types
 //@   decreases[C09] size(self), 0
 
 // the polarity of a type is read off its head constructor: a type name has to be unfolded first
+// (C04: forwarding is directed by polarity) positive: 1, *, +{}, down shift; negative: -*, &{}, up shift
+//@ macro polOf(t SessionType) Polarity = ite(is(t, UnitType) || is(t, SendType) || is(t, SelectLabelType) || is(t, DownType), POSITIVE, NEGATIVE)
 //@ contract interface SessionType.Polarity(self)
 //@   requires[C09] !is(self, LabelType)
+//@   ensures C04.polarity: !is(self, LabelType) ==> result == polOf(self)
 //@   pure
 //@ contract (*LabelType).Polarity
 //@   unreachable[C09]
